@@ -37,7 +37,7 @@ func (c04) Budget(tier string) core.Budget {
 	if tier == "thorough" {
 		return core.Budget{Runs: 2000000, WallCap: 20 * time.Minute}
 	}
-	return core.Budget{Runs: 8000, WallCap: 45 * time.Second}
+	return core.Budget{Runs: 24000, WallCap: 45 * time.Second}
 }
 
 var c04Probes = []struct {
